@@ -531,6 +531,28 @@ pub fn fam_conc(tier: Tier) -> Vec<Config> {
             }
         }
     }
+    // two delayed retries with different delays, the longer one failing first: each waits for
+    // its own deadline
+    for conc in [Some(2usize), Some(3), None] {
+        for long_first in [true, false] {
+            let mut cfg = base(String::new());
+            let (a, b) = if long_first { ("retry(1).after(10s)", "retry(1).after(5s)") } else { ("retry(1).after(5s)", "retry(1).after(10s)") };
+            cfg.feats = vec![feat(vec![scen(&[a], &[M]), scen(&[b], &[M]), scen(&[], &[M])])];
+            cfg.items = vec![Item::Feat(0)];
+            cfg.conc_builder = Some(conc);
+            cfg.plan.gates = GateMode::Steps;
+            cfg.clock_budget = 2;
+            cfg.clock_step = Duration::from_secs(6);
+            let infos = cfg.scen_infos();
+            for i in infos.iter().take(2) {
+                cfg.plan.outcomes.insert(i.calls[0].key.clone(), vec![Outcome::PanicString, Outcome::Pass]);
+            }
+            cfg.bound = Some(if tier == Tier::Quick { 2 } else { 3 });
+            cfg.max_execs = if tier == Tier::Quick { 4_000 } else { 300_000 };
+            cfg.name = format!("conc/two-delays|c{conc:?}|long_first{}", u8::from(long_first));
+            out.push(cfg);
+        }
+    }
     // a feature arriving late (lazy parser) while fewer scenarios than the limit are running:
     // the free slots are filled from it after the next completion
     for (b, c) in [(Some(Some(3usize)), None), (Some(Some(4)), None), (Some(None), None), (Some(Some(1)), Some(3usize))] {
@@ -716,6 +738,29 @@ pub fn fam_serial(tier: Tier) -> Vec<Config> {
                     }
                 }
             }
+        }
+    }
+    // rows of one Scenario Outline classified differently: the first row (untagged Examples
+    // block) is concurrent, the second (block tagged @serial) is serial
+    for conc in [Some(2usize), Some(3), None] {
+        for lazy in [false, true] {
+            let mut cfg = base(String::new());
+            cfg.feats = vec![
+                FeatSpec {
+                    tags: vec!["outline-pair".into()],
+                    scenarios: vec![scen(&[], &[M]), scen(&["serial"], &[M]), scen(&[], &[M])],
+                    ..Default::default()
+                },
+                feat(vec![scen(&[], &[M])]),
+            ];
+            cfg.items = vec![Item::Feat(0), Item::Feat(1)];
+            cfg.conc_builder = Some(conc);
+            cfg.lazy = lazy;
+            cfg.plan.gates = GateMode::Steps;
+            cfg.bound = Some(if tier == Tier::Quick { 2 } else { 3 });
+            cfg.max_execs = if tier == Tier::Quick { 3_000 } else { 200_000 };
+            cfg.name = format!("serial/outline-rows|c{conc:?}|lazy{}", u8::from(lazy));
+            out.push(cfg);
         }
     }
     out
@@ -1253,6 +1298,17 @@ pub fn fam_verdict(tier: Tier) -> Vec<Config> {
                                 let Some((outcomes, worlds)) = chain_plan(&info, true, true, &chain) else {
                                     continue;
                                 };
+                                if nohooks_too && chain.len() == 2 {
+                                    // the same with callables that panic while being called, before
+                                    // they return their future
+                                    let mut sp = cfg.clone();
+                                    sp.plan.outcomes = outcomes.clone();
+                                    sp.plan.world_new = worlds.clone();
+                                    sp.plan.sync_panics = true;
+                                    sp.max_execs = 200;
+                                    sp.name = format!("verdict/syncpanic|n{n}|perr{perr:?}|ff{}|{chain:?}", u8::from(*ff));
+                                    out.push(sp);
+                                }
                                 let mut c = cfg.clone();
                                 c.plan.outcomes = outcomes;
                                 c.plan.world_new = worlds;
@@ -1726,6 +1782,8 @@ pub fn fam_big(tier: Tier) -> Vec<Config> {
                         cfg.plan.outcomes.insert(r2s2.calls.last().unwrap().key.clone(), vec![p, p, p, p, Outcome::Pass]);
                         cfg.bound = Some(if gated { 1 } else if tier == Tier::Quick { 1 } else { 2 });
                         cfg.max_execs = if tier == Tier::Quick { 2_000 } else { 20_000 };
+                        // (every second one: all features come from "the same file")
+                        cfg.same_path = hooks == lazy;
                         cfg.name = format!(
                             "big/b{b:?}|c{c:?}|h{}|ff{}|lazy{}|g{}",
                             u8::from(hooks),
